@@ -19,5 +19,5 @@ Qed.
 Lemma in_F_no_excluded ls l : in_F ls = true -> In l ls -> existsb excluded_char l = false.
 Proof.
   unfold in_F. rewrite forallb_forall. intros H I. specialize (H l I). unfold line_in_F in H.
-  apply andb_prop in H as [H _]. apply andb_prop in H as [H _]. apply andb_prop in H as [H _]. now apply negb_true_iff in H.
+  apply andb_prop in H as [H _]. apply andb_prop in H as [H _]. apply andb_prop in H as [H _]. apply andb_prop in H as [H _]. now apply negb_true_iff in H.
 Qed.
